@@ -42,6 +42,40 @@ CLAIMED.update({
             "DESIGN.md section 4 C15"),
 })
 
+CLAIMED.update({
+    "C01": ("proof", TECH,
+            "CalculateLCOELCOHLCOC is proved equal to a spec function written per product from the three model "
+            "definitions (FCR, standard discounted, BICYCLE) for all 3 x 8 x 9 configurations, with symbolic lifetime, "
+            "costs, rates and year-varying series (Sigma-normal form for the discounted sums).",
+            TRUSTED + "The Standard model's exponent origin and the per-model treatment of pumping cost for "
+            "cogeneration heat are code-derived and declared in the evidence; add-on and SBT economics tails are not "
+            "yet covered.", "DESIGN.md section 4 C01"),
+    "C03": ("proof", TECH,
+            "The capital and O&M roll-up clauses are postconditions of the real Economics.Calculate (700 lines, executed "
+            "symbolically with every Valid/Provided flag a free Boolean, callees through their contracts): CCap = "
+            "components or user total, less ITC, incentives, grants plus fees; component overrides used exactly; "
+            "Cwell = per-well costs x wells (+laterals, 1.05); Coam = parts or user total + redrilling + fees - relief; "
+            "chiller not double counted; per-well cost helper proved for all 17 correlations. Quick tier: 19 "
+            "representative end-use x plant configurations, thorough tier: all 72.",
+            TRUSTED + "Snapshots of the real classes after Model.read_parameters (T5); surface-plant and pump cost "
+            "correlations are 'the components' and are not checked against anything.", "DESIGN.md section 4 C03"),
+})
+CLAIMED["C04"] = ("proof", TECH,
+            "Helpers (CalculateRevenue, CalculateCarbonRevenue x 8 end-uses, calculate_npv, "
+            "CalculateFinancialPerformance) and the cash-flow assembly of the real Economics.Calculate are proved: "
+            "construction years carry -CCap/cy, operating years = product revenues (reported prices x energy) + carbon "
+            "- O&M, cumulative = running sum, NPV/IRR/VIR/MOIC of exactly the reported series at the stated rate (both "
+            "conventions), non-zero IRR zeroes the NPV, payback lies in a year where the cumulative turns positive and "
+            "is 0 (N/A) otherwise. One genuine defect found and fixed (payback scan wrap-around, see known_findings.json).",
+            TRUSTED + "numpy-financial npv/irr are library axioms (A3); add-on cash flows not yet covered.",
+            "DESIGN.md section 4 C04")
+CLAIMED["C16"] = ("proof", TECH,
+            "BuildPricingModel / BuildPTCModel are proved against the documented schedule for all lifetimes, start years, "
+            "durations and rates; at Economics.Calculate level: reported prices are zero in construction years and equal "
+            "the schedule (+PTC) in operating years, PTC only for provided credits within the stated duration, ITC lowers "
+            "capital cost by exactly rate x cost, grants/incentives/fees/tax relief enter by exactly their amounts.",
+            TRUSTED + "Precondition: 0 <= PTC duration <= lifetime (the property's quantifier).", "DESIGN.md section 4 C16")
+
 NOT_APPLICABLE = {
     "C13": "independence/non-replication of Monte Carlo draws across forked pool workers is a schedule/process-history "
            "property of numpy's global RNG under fork; no per-call contract can state it (DESIGN.md section 6)",
